@@ -54,6 +54,20 @@ func (c *Cert) SetPermittedIPs(ipAndMask [][]byte) {
 	c.SetExt("2.5.29.30", MakeExt(OIDNCNode(), true, Cons(0x10, permitted).Bytes()))
 }
 
+// SetPermittedAndExcludedIPs: name constraints with permitted and excluded iPAddress subtrees (ip||mask each).
+func (c *Cert) SetPermittedAndExcludedIPs(permittedIPs, excludedIPs [][]byte) {
+	var ps, xs []*Node
+	for _, b := range permittedIPs {
+		ps = append(ps, Cons(0x10, GN(GNIP, b)))
+	}
+	for _, b := range excludedIPs {
+		xs = append(xs, Cons(0x10, GN(GNIP, b)))
+	}
+	permitted := &Node{Id: []byte{0xa0}, cons: true, Children: ps}
+	excluded := &Node{Id: []byte{0xa1}, cons: true, Children: xs}
+	c.SetExt("2.5.29.30", MakeExt(OIDNCNode(), true, Cons(0x10, permitted, excluded).Bytes()))
+}
+
 // SetAttr replaces the value of the first attribute with the dotted OID in a Name (RDNSequence); returns false if absent.
 func SetAttr(name *Node, oid string, tag byte, value []byte) bool {
 	for _, rdn := range name.Children {
